@@ -7,7 +7,7 @@ servers behind the real TLS / SSH / Unix transports, recording session subclasse
 import os, json, glob, itertools
 
 ID = 'C01'
-COQ_ROOTS = ['Props/C01.v', 'GenProps/Framing_consts.v']
+COQ_ROOTS = ['Props/C01.v', 'GenProps/Framing_consts.v', 'GenProps/Writer_consts.v']
 RULE = ('Parser level: (message list, chunking (1.1), segmentation) triples, both framing versions. Messages: XML-ish ASCII, '
         '2/3/4-byte characters inside and at both ends (incl. U+00A0/U+3000/U+2028), blank-after-strip, multi-read (5-12 kB), '
         'ending in a proper prefix of the 1.0 delimiter, lone ]]> (1.0) / the full ]]>]]> (1.1) inside, chunk-header and '
